@@ -2,7 +2,9 @@
 from .. import core, sched
 from ..gen import KEY_POOL, rng_for
 
-EXTRA_PROP_MODULES = [("KB.Props.OrderC04", "KB.OrderC04"), ("KB.Props.C04Window", "KB.C04Window")]
+EXTRA_PROP_MODULES = [("KB.Props.OrderC04", "KB.OrderC04"), ("KB.Props.C04Window", "KB.C04Window"),
+                      # the window of KB.C04Window is tied to tso.Deal by the shape facts and theorems of KB.C18Cas
+                      ("KB.Props.C18Cas", "KB.C18Cas")]
 
 ENGINES = ["memkv", "badger", "tikv"]
 
@@ -44,4 +46,10 @@ def check(rep, tier, seed):
     rep.assumptions += ["atomicity granularity: one tso.Deal, one engine batch commit, one engine snapshot read, one slot store are single steps "
                         "(the repair loop: its read + deal, and its commit + notification + pop)",
                         "the gated harness schedules storage calls; revision allocation happens together with the preceding step",
-                        "sequencer goroutine free-running (eager in the model); observations of the committed revision are waited for (bounded)"]
+                        "sequencer goroutine free-running (eager in the model); observations of the committed revision are waited for (bounded)",
+                        "the dealing window (a dealt revision always has a slot in the sequencer's ring of 100000) cannot be filled through the "
+                        "harness: it is covered by KB.C04Window (invariant of the LTS), the shape facts of tso.Deal (KB.C18Cas) and the dynamic "
+                        "test TestTsoWindow on the real allocator"]
+    if not rep.violations:
+        from .. import tsocas
+        tsocas.run_dynamic(rep, "C04", seed)
